@@ -19,7 +19,7 @@ MCEscapes == {"%2F", "%2f", "%20", "%41", "%C3%A9", "%C3%B6", "%c3%b6", "%5E"}
 \* as UTF-8 into the route option), "^" for itself
 \* upstream answer scripts that break off: Content-Length announced but the connection closed after part of the
 \* body; chunked without the last chunk (after some / no body bytes, closed or reset); closed before any header
-MCFaulty  == {"cutcl", "cutchunked", "cutchunked0", "rstchunked", "cuthead"}
+MCFaulty  == {"cutcl", "cutchunked", "cutchunked0", "rstchunked", "cuthead", "timeout"}     \* timeout: no answer within proxy.responseheadertimeout
 MCEncoded == [t \in {"U+F6", "^"} |-> IF t = "U+F6" THEN "%C3%B6" ELSE "%5E"]
 MCDecoded == [t \in {"%C3%B6", "%c3%b6", "%5E"} |-> IF t = "%5E" THEN "^" ELSE "U+F6"]
 
@@ -34,6 +34,8 @@ BaseCase == [prop |-> Prop, sub |-> "", tls |-> FALSE, kind |-> "http", method |
              peer |-> "v4",          \* the client connects over 127.0.0.1 ("v4") or ::1 ("v6")
              cfgspell |-> "canon",
              accesslog |-> FALSE,
+             cfggzip |-> FALSE,      \* proxy.gzip.contenttype is set (^text/)
+             noglob |-> FALSE,       \* glob.matching.disabled = true
              hist |-> <<>>,          \* earlier requests through the same route (C13 histories), the own request last
              hostlabel |-> "a",
              together |-> FALSE,     \* the requests of hist arrive simultaneously, at a proxy that has not served anything yet
@@ -107,7 +109,17 @@ C07Faults   == <<"cutcl", "cutchunked", "cutchunked0", "rstchunked", "cuthead">>
 C07PageHists == << <<"page">>, <<"page", "">>, <<"page", "page2">>, <<"page", "", "page2">>, <<"page", "page2", "">>,
                    <<"", "page">>, <<"page", "page">>, <<"page2", "", "">> >>
 C07Flips     == << <<"page", "page2">>, <<"", "page">>, <<"", "page", "page2">> >>
+\* --- never sliced: a request-target that ends in a bare "?" (a query that is present and empty)
+\* --- never sliced: proxy.gzip.contenttype set; upstream answers that already carry a content coding other than gzip must
+\*     pass unchanged to a client that accepts gzip; answers to a client that does not ask for gzip pass unchanged
+C07Gzip     == << <<"none", "ok">>, <<"multi", "created">>, <<"gzipok", "enc-deflate">>, <<"gzipok", "enc-br">>,
+                  <<"gzipok", "enc-identity">>, <<"gzipok", "enc-compress">> >>
+\* --- never sliced: the instance of the route refuses the connection (body-less requests): an error answer of fabio's
+\*     own, and the request goes nowhere else - also when a route without a host matches the path as well
 C07Outer == {<<"status", m, p>> : m \in {1, 2}, p \in {3}}
+            \cup {<<"bareq", m, p>> : m \in {1, 2}, p \in {3, 4}}
+            \cup {<<"gzip", m, p>> : m \in {1, 2}, p \in {3}}
+            \cup {<<"dead", m, p>> : m \in {1, 4}, p \in {1}}
             \cup {<<"pagehist", m, p>> : m \in {1, 2}, p \in {1, 2}}
             \cup {<<"flip", m, p>> : m \in {1, 2}, p \in {1, 2}}
             \cup {<<"rest", m, p>> : m \in {1, 2}, p \in {1, 2, 3, 4, 7}}
@@ -136,6 +148,24 @@ C07Inner(o) ==
                            !.resp = C07Statuses[t[1]], !.accesslog = (t[3] = 2),
                            !.routes = << Ordinary(<<S, "strip">>, <<>>, <<>>, "", <<>>) >>] :
           t \in (DOMAIN C07Statuses) \X {1, 2} \X {1, 2} }
+    ELSE IF o[1] = "bareq" THEN
+        { [BaseCase EXCEPT !.sub = "bareq", !.method = C07Methods[o[2]], !.path = C07Paths[o[3]], !.tls = (t[2] = 2),
+                           !.query = <<"">>,
+                           !.routes = << Ordinary(<<S, "strip">>, C07Strips[t[1]], C07Prepends[t[3]], "", <<>>) >>] :
+          t \in {1, 2} \X {1, 2} \X {1, 2} }
+    ELSE IF o[1] = "gzip" THEN
+        { [BaseCase EXCEPT !.sub = "gzip", !.method = C07Methods[o[2]], !.path = C07Paths[o[3]], !.tls = (t[2] = 2),
+                           !.cfggzip = (t[3] = 1), !.hdrs = C07Gzip[t[1]][1], !.resp = C07Gzip[t[1]][2],
+                           !.routes = << Ordinary(<<S, "strip">>, <<>>, <<>>, "", <<>>) >>] :
+          t \in (DOMAIN C07Gzip) \X {1, 2} \X {1, 2} }
+    ELSE IF o[1] = "dead" THEN
+        \* t[3] = 2: a route without a host matches the path too
+        { [BaseCase EXCEPT !.sub = "dead", !.method = C07Methods[o[2]], !.path = <<S, "deadpath", S, "x">>, !.tls = (t[2] = 2),
+                           !.hdrs = "none",
+                           !.routes = LET r1 == [Ordinary(<<S, "deadpath">>, <<>>, <<>>, C07HostOpts[t[1]], <<>>) EXCEPT !.dead = TRUE]
+                                          r2 == [Ordinary(<<S, "deadpath">>, <<>>, <<>>, "", <<>>) EXCEPT !.hostform = "none"]
+                                      IN IF t[3] = 1 THEN <<r1>> ELSE <<r1, r2>>] :
+          t \in (DOMAIN C07HostOpts) \X {1, 2} \X {1, 2} }
     ELSE IF o[1] = "pagehist" THEN
         { [BaseCase EXCEPT !.sub = "pagehist", !.method = C07Methods[o[2]], !.path = C07NRPaths[o[3]], !.tls = (t[2] = 2),
                            !.pagehist = C07PageHists[t[1]], !.nrstatus = C07NRStatus[t[3]],
@@ -192,7 +222,7 @@ C08HostOpts == <<"", "dst", "name">>
 C08RHosts == <<"plain", "ported">>
 \* --- never sliced: the peer's own address in the client's X-Forwarded-For, IPv4 and IPv6 peers, configured header
 \* names in the spelling people use.  Outer n >= 1000: <<1000 + xff style, others forged?>>
-C08XffStyles == <<"absent", "once", "twice", "sfx", "pfx", "dup", "truefirst">>
+C08XffStyles == <<"absent", "once", "twice", "sfx", "pfx", "dup", "truefirst", "empty1", "blank2", "emptymix">>
 C08OtherStyles == <<"absent", "once", "truefirst", "truelast">>
 C08PeerCfgs  == << <<TRUE, TRUE, TRUE, "canon">>, <<TRUE, TRUE, TRUE, "odd">>, <<FALSE, FALSE, FALSE, "canon">> >>
 \* --- never sliced: several requests over ONE keep-alive connection to one of fabio's own listeners, asking for
@@ -209,7 +239,16 @@ C08ConnInner(o) ==
                        !.rhost = own.rhost, !.hostlabel = own.host,
                        !.routes = << [Ordinary(<<S>>, <<>>, <<>>, C08HostOpts[t[3]], <<>>) EXCEPT !.ghost = TRUE] >>] :
       t \in {1, 2} \X {1, 2} \X {1, 2} }
-C08Outer  == {<<2000 + x, y>> : x \in DOMAIN C08ConnReqs, y \in DOMAIN C08ConnReqs} \cup ({<<n, st>> : n \in 0..255, st \in DOMAIN C08Styles} \ {<<0, st>> : st \in 2..5})
+\* --- never sliced: the upstream fails (refuses the connection, hangs up before any answer, does not answer in time):
+\*     the answer fabio makes up is an answer on the client's connection like any other (Strict-Transport-Security)
+C08Fails == <<"refused", "cuthead", "timeout">>
+C08FailInner(o) ==
+    { [BaseCase EXCEPT !.sub = "fail", !.tls = (t[1] = 2), !.path = <<S, "h", S, "x">>,
+                       !.cfgip = C08Cfgs[t[2]][1], !.cfgtls = C08Cfgs[t[2]][2], !.cfgsts = C08Cfgs[t[2]][3],
+                       !.resp = IF C08Fails[o[2]] = "refused" THEN "ok" ELSE C08Fails[o[2]],
+                       !.routes = << [Ordinary(<<S>>, <<>>, <<>>, C08HostOpts[t[3]], <<>>) EXCEPT !.dead = (C08Fails[o[2]] = "refused")] >>] :
+      t \in {1, 2} \X (DOMAIN C08Cfgs) \X {1, 2} }
+C08Outer  == {<<3000, f>> : f \in DOMAIN C08Fails} \cup {<<2000 + x, y>> : x \in DOMAIN C08ConnReqs, y \in DOMAIN C08ConnReqs} \cup ({<<n, st>> : n \in 0..255, st \in DOMAIN C08Styles} \ {<<0, st>> : st \in 2..5})
              \cup {<<1000 + x, y>> : x \in DOMAIN C08XffStyles, y \in DOMAIN C08OtherStyles}
 C08PeerInner(o) ==
     { [BaseCase EXCEPT !.sub = "peer", !.tls = (t[1] = 2), !.kind = C08Kinds[t[2]], !.path = <<S, "h", S, "x">>,
@@ -221,7 +260,7 @@ C08PeerInner(o) ==
                        !.peer = IF t[4] = 1 THEN "v4" ELSE "v6",
                        !.routes = << Ordinary(<<S>>, <<>>, <<>>, "", <<>>) >>] :
       t \in {1, 2} \X (DOMAIN C08Kinds) \X (DOMAIN C08PeerCfgs) \X {1, 2} }
-C08Inner(o) == IF o[1] >= 2000 THEN C08ConnInner(o) ELSE IF o[1] >= 1000 THEN C08PeerInner(o) ELSE
+C08Inner(o) == IF o[1] >= 3000 THEN C08FailInner(o) ELSE IF o[1] >= 2000 THEN C08ConnInner(o) ELSE IF o[1] >= 1000 THEN C08PeerInner(o) ELSE
     { [BaseCase EXCEPT !.sub = "hdr", !.tls = (t[1] = 2), !.kind = C08Kinds[t[2]], !.path = <<S, "h", S, "x">>,
                        !.forged = C08Forged(o[1], o[2]),
                        !.xfpval = IF t[1] = 2 THEN "http" ELSE "https",       \* a forged X-Forwarded-Proto lies
@@ -251,7 +290,7 @@ C13Prepends == << <<>>, <<S, "pre">> >>
 C13Paths   == << <<S>>, <<S, "a", S, "b">>, <<S, "a", "%2F", "b">>, <<S, "a", "%20", "b", S>>,
                  <<S, "caf", "%C3%A9">>, <<S, "%41", "x">>, <<S, "a", "%2f", "b", S, "c">>,
                  <<>> >>                                                            \* 8: only below a strip prefix (/strip)
-C13Queries == << <<>>, <<"a=1">>, <<"a=1", "b=%2F">> >>
+C13Queries == << <<>>, <<"a=1">>, <<"a=1", "b=%2F">>, <<"h=$host", "p=$path">> >>
 C13RHosts  == <<"plain", "ported">>
 \* an empty $path is only asked where the join is unambiguous
 C13Skip(tp, s, pp, p) == /\ C13Paths[p] = <<>>
@@ -278,7 +317,7 @@ C13KindTpls == << Tpl("http", "upstream", <<S>>, FALSE, FALSE, <<>>),           
 C13Kinds    == << <<"GET", "http">>, <<"HEAD", "http">>, <<"POST", "http">>, <<"GET", "ws">>, <<"GET", "Ws">>,
                   <<"GET", "sse">>, <<"POST", "sse">> >>                            \* method, kind (sse: Accept: text/event-stream)
 C13KindCodes == << Code("301", 301), Code("308", 308) >>
-C13KindPaths == << <<S, "a", S, "b">>, <<S, "a", "%2F", "b">> >>
+C13KindPaths == << <<S, "a", S, "b">>, <<S, "a", "%2F", "b">>, <<S, "$host", S, "$path">> >>     \* the last: placeholders as plain text
 \* --- never sliced: strip / prepend values that need escaping (see C07), the client spelling the prefix either way
 C13EncTpls     == << Tpl("https", "t.example", <<>>, TRUE, TRUE, <<>>),             \* https://t.example/$path
                      Tpl("https", "t.example", <<>>, TRUE, FALSE, <<>>),            \* https://t.example$path
@@ -308,7 +347,20 @@ C13HistReqs == << [host |-> "a", rhost |-> "plain", path |-> <<S, "hist", S, "x"
 
 \* --- never sliced: the first requests a proxy ever serves arrive simultaneously (8 at once, one redirect route)
 C13BurstCodes == << Code("301", 301), Code("302", 302), Code("307", 307), Code("308", 308) >>
-C13Outer == {<<"burst", tp, cd, 1, 1>> : tp \in DOMAIN C13HistTpls, cd \in DOMAIN C13BurstCodes}
+\* --- never sliced: glob.matching.disabled on and off; a redirect on host:80 that points back at the request is passed
+\*     over in favour of the route on the same host written without the port (the documented http -> https layout)
+C13NoGlobTpls == << Tpl("http", "self", <<>>, TRUE, FALSE, <<>>),                   \* http://<own host>$path
+                    Tpl("http", "self", <<S, "x">>, FALSE, FALSE, <<>>),            \* http://<own host>/x
+                    Tpl("https", "self", <<>>, TRUE, FALSE, <<>>) >>                \* https://<own host>$path (does not point back)
+\* --- never sliced: the redirect that points back at the request sits on a route WITHOUT a host - the last candidate
+\*     there is: nothing is left, the request has no route
+C13LastTpls == << Tpl("http", "$host", <<>>, TRUE, FALSE, <<>>),                    \* http://$host$path
+                  Tpl("https", "$host", <<>>, TRUE, TRUE, <<>>),                    \* https://$host/$path
+                  Tpl("https", "t.example", <<>>, TRUE, FALSE, <<>>) >>             \* https://t.example$path (never points back)
+C13LastSrc == <<"selflast1", "selflast2", "selflast3">>      \* routes without a host must differ in their path
+C13Outer == {<<"selflast", tp, 1, 1, 1>> : tp \in DOMAIN C13LastTpls}
+            \cup {<<"noglob", g, tp, 1, 1>> : g \in {1, 2}, tp \in DOMAIN C13NoGlobTpls}
+            \cup {<<"burst", tp, cd, 1, 1>> : tp \in DOMAIN C13HistTpls, cd \in DOMAIN C13BurstCodes}
             \cup {<<"history", tp, r1, r2, 1>> : tp \in DOMAIN C13HistTpls, r1 \in DOMAIN C13HistReqs, r2 \in DOMAIN C13HistReqs}
             \cup {<<"kinds", tp, cd, kd, 1>> : tp \in DOMAIN C13KindTpls, cd \in DOMAIN C13KindCodes, kd \in DOMAIN C13Kinds}
             \cup {<<"encopt", tp, s, pp, 1>> : tp \in DOMAIN C13EncTpls, s \in DOMAIN C13EncStrips, pp \in DOMAIN C13EncPrepends}
@@ -325,6 +377,18 @@ C13Inner(o) ==
           t \in { u \in (DOMAIN C13Paths) \X (DOMAIN C13Queries) \X (DOMAIN C13RHosts) \X {1, 2} :
                   /\ ~C13Skip(o[2], o[4], o[5], u[1])
                   /\ Keep(o[2] + 5 * o[3] + 7 * o[4] + 11 * o[5] + 3 * u[1] + 13 * u[2] + 17 * u[3] + 19 * u[4]) } }
+      [] o[1] = "selflast" ->
+        { [BaseCase EXCEPT !.sub = "selflast", !.tls = (t[3] = 2), !.query = C13Queries[t[2]],
+                           !.path = <<S, C13LastSrc[o[2]]>> \o C13SelfPaths[t[1]],
+                           !.routes = << [Ordinary(<<S, C13LastSrc[o[2]]>>, <<>>, <<>>, "", <<>>) EXCEPT !.code = Code("301", 301),
+                                                   !.tpl = C13LastTpls[o[2]], !.hostform = "none"] >>] :
+          t \in (DOMAIN C13SelfPaths) \X {1, 2} \X {1, 2} }
+      [] o[1] = "noglob" ->
+        { [BaseCase EXCEPT !.sub = "noglob", !.noglob = (o[2] = 2), !.path = C13SelfPaths[t[1]], !.query = C13Queries[t[2]],
+                           !.routes = LET r == [Ordinary(<<S>>, <<>>, <<>>, "", <<>>) EXCEPT !.code = Code("301", 301),
+                                                         !.tpl = C13NoGlobTpls[o[3]], !.hostform = "port80"]
+                                      IN IF t[3] = 1 THEN <<r>> ELSE <<r, Ordinary(<<S>>, <<>>, <<>>, "", <<>>)>>] :
+          t \in (DOMAIN C13SelfPaths) \X {1, 2} \X {1, 2} }
       [] o[1] = "burst" ->
         { [BaseCase EXCEPT !.sub = "burst", !.tls = (t = 2), !.hist = C13HistReqs, !.together = TRUE,
                            !.path = C13HistReqs[8].path, !.query = C13HistReqs[8].query, !.hostlabel = C13HistReqs[8].host,
@@ -343,10 +407,11 @@ C13Inner(o) ==
           t \in {1, 2} \X {1, 2} }
       [] o[1] = "kinds" ->
         { [BaseCase EXCEPT !.sub = "kinds", !.method = C13Kinds[o[4]][1], !.kind = C13Kinds[o[4]][2],
+                           !.noglob = ((o[2] + o[3] + o[4] + t[1] + t[2] + t[3]) % 2 = 0),
                            !.tls = (t[3] = 2), !.query = C13Queries[t[2]], !.path = C13KindPaths[t[1]],
                            !.routes = << [Ordinary(<<S>>, <<>>, <<>>, "", <<>>)
                                           EXCEPT !.code = C13KindCodes[o[3]], !.tpl = C13KindTpls[o[2]]] >>] :
-          t \in (DOMAIN C13KindPaths) \X {1, 2} \X {1, 2} }
+          t \in (DOMAIN C13KindPaths) \X {1, 2, 4} \X {1, 2} }
       [] o[1] = "encopt" ->
         { [BaseCase EXCEPT !.sub = "encopt", !.tls = (t[3] = 2), !.query = C13Queries[t[2]], !.path = C13EncPaths[t[1]],
                            !.routes = << [Ordinary(<<S>>, C13EncStrips[o[3]], C13EncPrepends[o[4]], "", <<>>)
